@@ -425,9 +425,15 @@ fn step(st: &mut St, t: &[&str]) -> Option<String> {
             Some(hex(&cv))
         }
         ["X", "fill", x, n] => {
-            let mut buf = vec![0u8; n.parse().ok()?];
-            st.xs.get_mut(*x)?.fill(&mut buf);
-            Some(hex(&buf))
+            // the destination at an odd address (offset 1..7 of the allocation, by length), canaries around it
+            let n: usize = n.parse().ok()?;
+            let off = 1 + n % 7;
+            let mut buf = vec![0xA5u8; off + n + 9];
+            st.xs.get_mut(*x)?.fill(&mut buf[off..off + n]);
+            if buf[..off].iter().any(|b| *b != 0xA5) || buf[off + n..].iter().any(|b| *b != 0xA5) {
+                return Some("CANARY".into());
+            }
+            Some(hex(&buf[off..off + n]))
         }
         ["X", "read", x, n] => {
             let mut buf = vec![0u8; n.parse().ok()?];
@@ -885,12 +891,21 @@ fn conv_step(t: &[&str]) -> Option<String> {
         }
         ["eq", a, b] => {
             let a: [u8; 32] = unhex(a)?.try_into().ok()?;
-            let bb = unhex(b)?;
-            let ha = blake3::Hash::from_bytes(a);
-            let r_slice = ha == bb[..];
+            let bb0 = unhex(b)?;
+            // both operands at odd addresses: the Hash at offset 1..8 of an 8-aligned slot, the slice inside a misaligned copy
+            #[repr(C, align(8))]
+            struct Slot([u8; 48]);
+            let mut slot = Slot([0u8; 48]);
+            let k = 1 + (a[0] as usize % 8);
+            let hp = unsafe { slot.0.as_mut_ptr().add(k) } as *mut blake3::Hash;
+            unsafe { std::ptr::write(hp, blake3::Hash::from_bytes(a)) };
+            let ha: &blake3::Hash = unsafe { &*hp };
+            let mv = misaligned(&bb0);
+            let bb = view(&mv, bb0.len());
+            let r_slice = *ha == bb[..];
             let mut out = format!("slice:{}", r_slice);
-            if let Ok(b32) = <[u8; 32]>::try_from(&bb[..]) {
-                out.push_str(&format!(" arr:{} hash:{}", ha == b32, ha == blake3::Hash::from_bytes(b32)));
+            if let Ok(b32r) = <&[u8; 32]>::try_from(bb) {
+                out.push_str(&format!(" arr:{} hash:{}", *ha == *b32r, *ha == blake3::Hash::from_bytes(*b32r)));
             }
             Some(out)
         }
